@@ -128,7 +128,7 @@ def main():
         old = json.load(open(os.path.join(d, 'meta.json')))
     except (OSError, ValueError):
         pass
-    for k in ('needs_to_manifest', 'breaks', 'description_from_seeder'):      # keep the seeder's description across re-evaluations
+    for k in ('needs_to_manifest', 'breaks', 'description_from_seeder', 'note'):      # keep the seeder's description across re-evaluations
         if old.get(k) and not meta.get(k):
             meta[k] = old[k]
     with open(os.path.join(d, 'meta.json'), 'w') as f:
